@@ -35,9 +35,16 @@ class Obj:
     __hash__ = None
 
 
+NPFLOAT = [False]      # series flag: float leaves are numpy.float64 (what instance_from_vector produces)
+
+
 def build(t):
     if "f" in t:
-        return unhex(t["f"])
+        return np.float64(unhex(t["f"])) if NPFLOAT[0] else unhex(t["f"])
+    if "a" in t:
+        return np.array(unhex(t["a"]))          # a 0-d array, what calling a scipy spline returns
+    if "d" in t:
+        return {k: build(c) for k, c in t["d"]}
     if "i" in t:
         return int(t["i"])
     if "x" in t:
@@ -81,6 +88,22 @@ def is_floaty(o):
     return isinstance(o, (float, np.floating)) or (isinstance(o, np.ndarray) and o.ndim == 0 and o.dtype.kind == "f")
 
 
+def apply_alias(obj, alias):
+    """make the component at path alias[1] the very object at path alias[0]"""
+    def at(o, path):
+        for k in path:
+            o = o[k] if isinstance(k, int) else getattr(o, k)
+        return o
+    src = at(obj, alias[0])
+    holder = at(obj, alias[1][:-1])
+    k = alias[1][-1]
+    if isinstance(k, int):
+        holder[k] = src
+    else:
+        setattr(holder, k, src)
+    return obj
+
+
 def abstract(o, odd=None, where=()):
     """Python object -> abstract tree.  `odd` collects leaves whose Python type is not exactly float/int."""
     if isinstance(o, bool) or o is None or isinstance(o, str):
@@ -92,7 +115,8 @@ def abstract(o, odd=None, where=()):
     if is_floaty(o):
         if odd is not None and type(o) is not float:
             odd["/".join(map(str, where))] = type(o).__name__
-        return {"f": hexf(float(o))}
+        # isinstance(o, float) is what the walk of the code tests: numpy.float64 passes, a 0-d array does not
+        return {"f": hexf(float(o))} if isinstance(o, float) else {"a": hexf(float(o))}
     if isinstance(o, (int, np.integer)):
         return {"i": int(o)}
     if isinstance(o, list):
@@ -102,8 +126,11 @@ def abstract(o, odd=None, where=()):
     if isinstance(o, af.ModelInstance):
         return {"o": [[k, abstract(c, odd, where + (k,))] for k, c in o.__dict__.items()
                       if isinstance(k, str) and k not in INTERNAL], "cls": "mi"}
+    if isinstance(o, dict):
+        return {"d": [[k, abstract(c, odd, where + (k,))] for k, c in o.items()]}
     if isinstance(o, af.Gaussian):
-        return {"o": [[k, abstract(c, odd, where + (k,))] for k, c in o.__dict__.items()], "cls": "gauss"}
+        # `id` is set on components made by a Model from a process-global counter: an int, never walked, left out
+        return {"o": [[k, abstract(c, odd, where + (k,))] for k, c in o.__dict__.items() if k != "id"], "cls": "gauss"}
     if isinstance(o, Obj):
         return {"o": [[k, abstract(c, odd, where + (k,))] for k, c in o.__dict__.items()], "cls": "obj"}
     return {"x": -2}
@@ -115,6 +142,10 @@ def mutable_ids(o, acc):
         if isinstance(o, list):
             acc.add(id(o))
         for c in o:
+            mutable_ids(c, acc)
+    elif isinstance(o, dict):
+        acc.add(id(o))
+        for c in o.values():
             mutable_ids(c, acc)
     elif hasattr(o, "__dict__"):
         acc.add(id(o))
@@ -157,7 +188,18 @@ def oracle_value(req):
 
 def run_series(s):
     trees = s["insts"]
-    objs = [build_root(t) for t in trees]
+    NPFLOAT[0] = bool(s.get("feats", {}).get("npfloat"))
+    alias = s.get("feats", {}).get("alias")
+
+    def make():
+        objs_ = [build_root(t) for t in trees]
+        if alias:
+            objs_ = [apply_alias(o, alias) for o in objs_]
+        return objs_
+    objs = make()
+    if s.get("feats", {}).get("frozen"):
+        for o in objs:
+            o.freeze()
     built = [abstract(o) for o in objs]
     abs_ok = [drop_item_number(b) == strip(t) for b, t in zip(built, trees)]
     before = snapshot(objs)
@@ -199,12 +241,20 @@ def run_series(s):
         r["inputs_unchanged"] = after == before
         if not r["inputs_unchanged"]:
             r["changed"] = [i for i, (a, b) in enumerate(zip(before, after)) if a != b]
-            objs = [build_root(t) for t in trees]      # fresh inputs so later queries stay meaningful
+            objs = make()      # fresh inputs so later queries stay meaningful
             before = snapshot(objs)
             interpolators = {}
         r["oracle"] = [oracle_value(req) for req in q.get("requests", [])]
         results.append(r)
     return {"abs_ok": abs_ok, "built": built, "queries": results}
+
+
+def _canon_leaf(t):
+    if "f" in t:
+        return {"f": hexf(unhex(t["f"]))}
+    if "a" in t:
+        return {"a": hexf(unhex(t["a"]))}
+    return dict(t)
 
 
 def drop_item_number(t):
@@ -216,6 +266,8 @@ def drop_item_number(t):
         return {"l": [drop_item_number(c) for c in t["l"]]}
     if "t" in t:
         return {"t": [drop_item_number(c) for c in t["t"]]}
+    if "d" in t:
+        return {"d": [[k, drop_item_number(c)] for k, c in t["d"]]}
     return t
 
 
@@ -227,9 +279,9 @@ def strip(t):
         return {"l": [strip(c) for c in t["l"]]}
     if "t" in t:
         return {"t": [strip(c) for c in t["t"]]}
-    if "f" in t:
-        return {"f": hexf(unhex(t["f"]))}
-    return dict(t)
+    if "d" in t:
+        return {"d": [[k, strip(c)] for k, c in t["d"]]}
+    return _canon_leaf(t)
 
 
 def main():
